@@ -388,6 +388,17 @@ UNI = ["é", "É", "ñ", "Ü", "ж", "Ж", "λ", "Ω", "测", "试", "😀", "\u
 ALL_CHARS = list(ASCII + PUNCT + HTMLCH + WS) + UNI
 
 
+# words on which lower / upper / casefold / NFC / NFKC disagree.  The documented definitions are
+# "forced to lowercase" (sort_natural), "all characters in uppercase / lowercase" (upcase /
+# downcase), i.e. Python's str.lower / str.upper; equality is code-point equality.
+TRICKY_WORDS = [
+    "Straße", "STRASSE 7", "Strassen", "Strand", "straẞe", "ﬁn", "fin", "Fin", "ﬀ", "ff", "FF",
+    "µm", "μm", "Μm", "ſet", "set", "Set", "İstanbul", "istanbul", "Istanbul", "ıs", "is",
+    "ας", "ασ", "ΑΣ", "Σ", "ς", "σ", "Ǆ", "ǅ", "ǆ", "Ꮳ", "ꮳ", "ά", "Ά", "α", "é", "e\u0301", "É", "E\u0301",
+    "ǰ", "J\u030c", "ΐ", "ﬃ",
+]
+
+
 def g_text(rng, lo: int = 0, hi: int = 12, alphabet: Any = None) -> str:  # noqa: ANN001
     a = alphabet or ALL_CHARS
     return "".join(rng.choice(a) for _ in range(rng.randint(lo, hi)))
@@ -457,7 +468,7 @@ def g_number(rng, strings: bool = True) -> Any:  # noqa: ANN001
 
 
 HASH_VALUES = [None, False, True, 0, 1, 2, "", "a", "b", "B", [], [1], {}, {"z": 1}, 1.5, 0.0,
-               "0", 10**20, -3, "kitchen", "false"]
+               "0", 10**20, -3, "kitchen", "false", "Straße", "STRASSE", "é", "e\u0301"]
 KEYS = ["k", "title", "a b", "n"]
 
 
